@@ -12,6 +12,13 @@ Verdict(r, specAccepts) ==
     \cup (IF r.genuine = 1 /\ ~specAccepts THEN {"MACHINERY_genuine_case_not_accepted_by_spec"} ELSE {})
     \cup (IF r.genuine = 0 /\ specAccepts THEN {"MACHINERY_forged_case_accepted_by_spec"} ELSE {})
 
+\* a leaf of ShardAccounts is  extra:DepthBalanceInfo value:ShardAccount  =
+\*   split_depth:(#<= 30) balance:(grams:(VarUInteger 16) other:(HashmapE 32 ..))  account:^Account last_trans_hash last_trans_lt
+\* the account is the reference AFTER the one the extra's currency dictionary takes when it is non-empty (0 = malformed leaf)
+AccountRefIdx(v) ==
+    IF Len(v) < 9 THEN 0
+    ELSE LET L == BitsNat(SubSeq(v, 6, 9)) IN
+         IF Len(v) < 10 + 8 * L THEN 0 ELSE 1 + v[10 + 8 * L]
 \* account proof: two roots (block proof, state proof), block id root hash, account id, claimed account cell
 AccountAccepts(r) ==
     LET heap == HeapOf(r.cells)
@@ -30,9 +37,9 @@ AccountAccepts(r) ==
              /\ LET d == ParseHeap(heap, acc.r[1], 256, <<>>, 0)
                     key == BytesToBits(r.account) IN
                 /\ d.ok
-                /\ \E l \in d.leaves : l.k = key /\ Len(l.r) >= 1 /\
+                /\ \E l \in d.leaves : l.k = key /\ AccountRefIdx(l.v) > 0 /\ Len(l.r) >= AccountRefIdx(l.v) /\
                       LET ah == HeapOf(r.claimed.cells) IN
-                      P!AccountCellOk(heap, info, l.r[1], ah, C!InfoAll(ah), r.claimed.root)
+                      P!AccountCellOk(heap, info, l.r[AccountRefIdx(l.v)], ah, C!InfoAll(ah), r.claimed.root)
 
 Failed(r) ==
     CASE r.op = "proof" ->
